@@ -64,12 +64,42 @@ func (te *tokenEngine) consumption(in ssa.Instruction, vals, addrs map[ssa.Value
 		return true, "Skip"
 	}
 	callee := c.Call.StaticCallee()
-	if callee == nil || callee.Blocks == nil || !te.w.inModule(callee) {
+	if callee == nil {
+		// a decoder looked up in an effectively constant table: consumes if every entry does
+		fs := te.w.dynCallees(c.Parent(), c)
+		if len(fs) == 0 {
+			return false, ""
+		}
+		for i, a := range c.Call.Args {
+			if !vals[a] {
+				continue
+			}
+			all := true
+			for _, f := range fs {
+				if i >= len(f.Params) {
+					all = false
+					break
+				}
+				ok := false
+				withBind(f, c.Call.Args, func() { ok = te.consumes(f, i) })
+				if !ok {
+					all = false
+				}
+			}
+			if all {
+				return true, "callee:table"
+			}
+		}
+		return false, ""
+	}
+	if callee.Blocks == nil || !te.w.inModule(callee) {
 		return false, ""
 	}
 	for i, a := range c.Call.Args {
 		if vals[a] && i < len(callee.Params) {
-			if te.consumes(callee, i) {
+			ok := false
+			withBind(callee, c.Call.Args, func() { ok = te.consumes(callee, i) })
+			if ok {
 				return true, "callee:" + te.w.funcKey(callee)
 			}
 		}
@@ -123,7 +153,7 @@ func (te *tokenEngine) countConsumptions(path []ssa.Instruction, vals0, addrs0 m
 			call := in.(*ssa.Call)
 			ev := errResult(call)
 			okNil := ev != nil && pathAsserts(path, func(cv ssa.Value, truth bool) bool { return assertsNil(cv, truth, ev) })
-			if ret, isRet := path[len(path)-1].(*ssa.Return); isRet && ev != nil && len(ret.Results) > 0 && ret.Results[len(ret.Results)-1] == ev {
+			if ret, isRet := path[len(path)-1].(*ssa.Return); isRet && ev != nil && len(ret.Results) > 0 && (ret.Results[len(ret.Results)-1] == ev || rres(path, ret)[len(ret.Results)-1] == ev) {
 				okNil = true
 			}
 			if !okNil {
@@ -140,6 +170,16 @@ func (te *tokenEngine) countConsumptions(path []ssa.Instruction, vals0, addrs0 m
 // every path that can return a nil error.
 func (te *tokenEngine) consumes(fn *ssa.Function, idx int) bool {
 	key := fmt.Sprintf("%s#%d", te.w.funcKey(fn), idx)
+	// a summary that depends on what the caller passes (a dispatch table) is specific to that caller
+	for _, p := range fn.Params {
+		if b, ok := dynBind[p]; ok {
+			if u, isLoad := b.(*ssa.UnOp); isLoad {
+				if g, isG := u.X.(*ssa.Global); isG {
+					key += "@" + g.Name()
+				}
+			}
+		}
+	}
 	if v, ok := te.summary[key]; ok {
 		return v == 1
 	}
@@ -323,6 +363,9 @@ func (te *tokenEngine) progress(fn *ssa.Function) string {
 		return fmt.Sprintf("%d Token calls", len(toks))
 	}
 	tok := toks[0].(*ssa.Call)
+	if tok.Parent() != fn {
+		fn = tok.Parent() // the scanning loop lives in a helper this function delegates to: judge the loop there
+	}
 	ev := errResult(tok)
 	if ev == nil {
 		return "the error of Token is discarded: a closed or broken stream makes the loop spin"
